@@ -101,6 +101,76 @@ def check(repo: Repo, R) -> None:
         okp = bool(vals) and all(v_ == f"str({a0}.path)" for v_ in vals)
         R.check(okp, "C17.1-dispatch-complete", key_of(fp_, "path-as-given"), fp_.site, f"{fname}: the exported path is the text of the given path: {vals}",
                 why="a relative include path is resolved against the exporting process's working directory: the SimInput no longer carries the path the Sim has")
+    # a measurement names the analysis it belongs to by that analysis's own type tag
+    fat = repo.func(F_SIMPROTO, "export_analysis_type")
+    a0 = fat.node.args.args[0].arg
+    n_ret = 0
+    for r_ in shared.returns_of(fat.node):
+        if r_.value is None:
+            continue
+        n_ret += 1
+        pcs = [(ast.unparse(t), pol) for t, pol in shared.path_conditions(fat.node, r_)]
+        got = shared.prov_text(fat.node, r_.value)
+        if (f"isinstance({a0}, str)", True) in pcs:
+            want = a0
+        elif any(t.endswith(f"is_analysis({a0})") and pol for t, pol in pcs):
+            want = f"{a0}.tp.value"
+        else:
+            want = None
+        R.check(want is not None and got == want, "C17.1-dispatch-complete", key_of(fat, f"type-tag::{want}"), fat.at(r_),
+                f"export_analysis_type returns `{got}`; a type given as text is handed on, an analysis object gives its `tp` tag (`{a0}.tp.value`)",
+                why="a measurement on a sweep / Monte-Carlo / custom analysis object is exported with a type string no analysis has ('sweepanalysis'): the class name is not the tag")
+    if n_ret < 2:
+        raise AnalysisError(f"idiom-unknown: {fat.site}: expected a return for the text form and one for the analysis-object form")
+    # each analysis class carries its own tag
+    tags = {}
+    for cls_ in union(repo, F_SIMDATA, "Analysis"):
+        m_ = repo.find_func(F_SIMDATA, f"{cls_}.tp")
+        rets_ = [ast.unparse(r.value) for r in shared.returns_of(m_.node) if r.value is not None] if m_ is not None else []
+        tags[cls_] = rets_[0] if len(rets_) == 1 else None
+    okt = all(v is not None and v.startswith("AnalysisType.") for v in tags.values()) and len(set(tags.values())) == len(tags)
+    R.check(okt, "C17.1-dispatch-complete", f"{F_SIMDATA}::analysis-type-tags", F_SIMDATA, f"every analysis class has its own `tp` tag: {tags}", why="two analysis kinds share a type tag: measurements attach to the wrong analysis")
+    # noise output forms: a form is not shadowed by a more general test placed before it
+    fno = repo.func(F_SIMPROTO, "SimProtoExporter.export_noise")
+    conn_members = set(union(repo, "hdl21/connect.py", "Connectable"))
+    n_arm = 0
+    for n_ in au.walk_no_nested(fno.node):
+        if not isinstance(n_, ast.If):
+            continue
+        rr = au.isinstance_classes(n_.test) if isinstance(n_.test, ast.Call) else None
+        if rr is None or shared.prov_text(fno.node, rr[0]) != "noise.output" or not n_.body:
+            continue
+        n_arm += 1
+        kinds = {ast.unparse(c_).split(".")[-1] for c_ in rr[1]}
+        shadow = [ast.unparse(t) for t, pol in shared.path_conditions(fno.node, n_.body[0]) if not pol and isinstance(t, ast.Call) and (dotted(t.func) or "").split(".")[-1] == "is_connectable"
+                  and t.args and shared.prov_text(fno.node, t.args[0]) == "noise.output"]
+        bad = bool(shadow) and bool(kinds & conn_members)
+        R.check(not bad, "C17.1-dispatch-complete", key_of(fno, f"output-form::{'|'.join(sorted(kinds))}"), fno.at(n_),
+                f"export_noise: the {sorted(kinds)} form of the output is reached by outputs of that kind" + (f" — only after `{shadow[0]}` has failed, which it never does for {sorted(kinds & conn_members)} (a connectable)" if bad else ""),
+                why="a differential (`Diff` bundle) noise output is taken for a single-ended signal named after the bundle: the SimInput names a signal the testbench does not have")
+    if n_arm < 2:
+        raise AnalysisError(f"idiom-unknown: {fno.site}: the output-form chain (tests on the kind of `noise.output`) was not found")
+    # the result has the form of the input: a list for a sequence of Sims (of any length), a lone SimInput for a lone Sim
+    ftp = repo.func(F_SIMPROTO, "to_proto")
+    i0 = ftp.node.args.args[0].arg
+    n_ret = 0
+    for r_ in shared.returns_of(ftp.node):
+        if r_.value is None:
+            continue
+        n_ret += 1
+        seq = [pol for t, pol in shared.path_conditions(ftp.node, r_) if f"isinstance({i0}, Sequence)" in (ast.unparse(t), shared.prov_text(ftp.node, t))]
+        v_ = shared.prov(ftp.node, r_.value)
+        lone = isinstance(v_, ast.Subscript) and ast.unparse(v_.slice) == "0"
+        # (`x, = <list>; return x` names the single element as well)
+        if isinstance(r_.value, ast.Name):
+            lone = lone or any(isinstance(st, ast.Assign) and len(st.targets) == 1 and isinstance(st.targets[0], (ast.Tuple, ast.List)) and len(st.targets[0].elts) == 1
+                               and isinstance(st.targets[0].elts[0], ast.Name) and st.targets[0].elts[0].id == r_.value.id for st in au.stmts(ftp.node))
+        okf = len(seq) >= 1 and len(set(seq)) == 1 and seq[0] == (not lone)
+        R.check(okf, "C17.6-testbench", key_of(ftp, f"form-as-given::{'lone' if lone else 'list'}"), ftp.at(r_),
+                f"to_proto returns {'one SimInput' if lone else 'a list'} " + (f"when the input is{'' if seq[0] else ' not'} a sequence" if len(set(seq)) == 1 else "whatever the form of the input (decided by something else)"),
+                why="a list holding a single Sim yields a bare SimInput: `run([s])` and every caller indexing the result break for exactly that length")
+    if n_ret < 2:
+        raise AnalysisError(f"idiom-unknown: {ftp.site}: expected a return for the sequence form and one for the lone form")
     fadd = repo.func(F_SIMDATA, "Sim.add")
     lp = [n for n in au.walk_no_nested(fadd.node) if isinstance(n, ast.For) and ast.unparse(n.iter) == "attrs"]
     ok = False
